@@ -25,3 +25,23 @@ package php5
 //@ func (*Parser).Parse
 //@   requires p != nil
 //@   trusted goyacc LR driver
+
+// ---------------------------------------------------------------------------------------------
+// E-GRAM: ghost yields of the parser-private carrier types (they have no printer method). A wrong
+// definition cannot hide an error: it makes the producing and the consuming rules disagree with
+// the real printer at the point where the carrier is unpacked into an ast node.
+//@ gram yield ParserBrackets := tok(OpenBracketTkn) node(Child) tok(CloseBracketTkn)
+//@ gram yield ParserSeparatedList := il(Items,SeparatorTkns)
+//@ gram yield TraitAdaptationList := tok(OpenCurlyBracketTkn) list(Adaptations) tok(CloseCurlyBracketTkn)
+//@ gram yield ArgumentList := tok(OpenParenthesisTkn) il(Arguments,SeparatorTkns) tok(CloseParenthesisTkn)
+//@ gram yield TraitMethodRef := node(Trait) tok(DoubleColonTkn) node(Method)
+
+// Documented conventions of C05 ("the root excludes trailing trivia, a trait adaptation excludes
+// its terminating semicolon, an empty array/list slot has no position, and -1 stands for a
+// boundary formed by an empty statement list"), as named exceptions of the pos obligations:
+//@ gram span-excludes ast.Root EndTkn : the root excludes trailing trivia (the end token is zero-width and carries it)
+//@ gram span-excludes ast.StmtTraitUsePrecedence SemiColonTkn : a trait adaptation excludes its terminating semicolon
+//@ gram span-excludes ast.StmtTraitUseAlias SemiColonTkn : a trait adaptation excludes its terminating semicolon
+//@ gram empty-slot-types ExprArrayItem : an empty array/list slot has no position
+//@ gram stmt-list-slots StmtCase.Stmts StmtDefault.Stmts : -1 stands for a boundary formed by an empty statement list
+//@ gram provisional-end alt_if_stmt_without_else : elseif branches are appended before alt_if_stmt closes the node and sets its final end
